@@ -154,7 +154,7 @@ func runOneHarness(sh *Shared, h *ssa.Function, cfg RunConfig, solvers []string,
 	t0 := time.Now()
 	pf := NewPortfolio(solvers)
 	defer pf.Close()
-	e := &Engine{sh: sh, pf: pf, harness: h.Name(), cfg: cfg, funcsSeen: map[string]bool{}, reachSeen: map[string]bool{}, reachPending: map[string]string{},
+	e := &Engine{sh: sh, pf: pf, harness: h.Name(), cfg: cfg, funcsSeen: map[string]bool{}, reachSeen: map[string]bool{}, failedLabels: map[string]bool{}, reachPending: map[string]string{},
 		stubsUsed: map[string]bool{}, linkCache: map[*ssa.Function]*ssa.Function{}, noMerge: map[*ssa.Function]string{}, topo: map[*ssa.Function][]*ssa.BasicBlock{},
 		deferC: map[*ssa.Function]bool{}, fnInfos: map[*ssa.Function]*fnInfo{}, symCache: map[*T]map[string]bool{}, splitBound: split, trace: trace}
 	if budget > 0 {
